@@ -2,6 +2,7 @@
 // stdin: one JSON case per line {"k": "<kind>", ...}; stdout: one JSON result per line.
 // Floats cross the boundary as 16-hex-digit bit patterns.
 mod util;
+mod c12;
 mod c16;
 mod c18;
 
@@ -14,6 +15,7 @@ fn dispatch(case: &Value) -> Value {
     let k = case["k"].as_str().unwrap_or("");
     let p = k.split('.').next().unwrap_or("");
     match p {
+        "c12" => c12::run(k, case),
         "c16" => c16::run(k, case),
         "c18" => c18::run(k, case),
         _ => json!({"unknown": k}),
